@@ -488,3 +488,43 @@ Fixpoint valid_trace (tr : list mop) (inflight : list nat) : Prop :=
 Definition wr_order (tr : list mop) : list nat := flat_map (fun o => match o with Wr i => [i] | Rd _ => [] end) tr.
 (* what one thread does with its queue of items *)
 Definition thread_mops (q : list nat) : list mop := flat_map (fun i => [Rd i; Wr i]) q.
+
+(* ------------------------------------------------------------------------------------------- *)
+(* 12. Which loop runs where: SMP mode, biases that need the main thread, OpenMP static schedule  *)
+(* ------------------------------------------------------------------------------------------- *)
+Local Open Scope nat_scope.
+(* colvarproxy_smp::smp_mode_t, configuration keyword `smp`: cvcs (also on/yes, the default) | inner_loop | anything else = none *)
+Inductive smp_mode := ModeCvcs | ModeInner | ModeNone.
+(* calc_colvars: `if (proxy->get_smp_mode() == smp_mode_t::cvcs)` the item list and the parallel loop, else variable by variable *)
+Definition parallel_cvc_loop (m : smp_mode) : bool := match m with ModeCvcs => true | _ => false end.
+
+(* the bias kinds and what colvarbias::replica_share_freq() returns for them: only metadynamics (replicaUpdateFrequency, set
+   when multipleReplicas is on) and ABF (sharedFreq) override the base class, which returns 0 *)
+Inductive bias_kind :=
+| KHarmonic | KWalls | KLinear | KHistogram | KHistRestraint | KAbmd | KAlb | KOpes
+| KMeta (multiple_replicas : bool) (replica_update_freq : nat)
+| KAbf (shared_freq : nat).
+Definition replica_share_freq (k : bias_kind) : nat :=
+  match k with
+  | KMeta true f => f
+  | KMeta false _ => 0
+  | KAbf f => f
+  | _ => 0
+  end.
+(* calc_biases: biases_need_main_thread = some ACTIVE bias has replica_share_freq() > 0 (it reads/writes files or MPI) *)
+Definition need_main_thread (active : list bias_kind) : bool := existsb (fun k => Nat.ltb 0 (replica_share_freq k)) active.
+Definition parallel_bias_loop (m : smp_mode) (active : list bias_kind) : bool := parallel_cvc_loop m && negb (need_main_thread active).
+
+Definition step_mode (m : smp_mode) (c : cfg) (t : nat) (oc ob : list nat) (s : store) : store :=
+  if parallel_cvc_loop m then step_smp c t oc ob s else step_serial c t s.
+
+(* `#pragma omp parallel for` with the default (static, no chunk size) schedule on nt threads: contiguous blocks, the first
+   n mod nt threads get one item more (libgomp: q = n / nt, t = n % nt, if (tid < t) { t = 0; q++; } s0 = q * tid + t) *)
+Definition omp_sizes (n nt : nat) : list nat := map (fun t => n / nt + (if Nat.ltb t (n mod nt) then 1 else 0)) (seq 0 nt).
+Fixpoint chunks (sizes : list nat) (start : nat) : list (list nat) :=
+  match sizes with [] => [] | k :: r => seq start k :: chunks r (start + k) end.
+Definition omp_static (n nt : nat) : list (list nat) := chunks (omp_sizes n nt) 0.
+(* the thread of item i *)
+Fixpoint find_thread (i : nat) (qs : list (list nat)) (t : nat) : nat :=
+  match qs with [] => t | q :: r => if existsb (Nat.eqb i) q then t else find_thread i r (S t) end.
+Definition omp_thread_of (n nt i : nat) : nat := find_thread i (omp_static n nt) 0.
